@@ -28,7 +28,15 @@ func TestVerifReplay(t *testing.T) {
 	defer func() {
 		if r := recover(); r != nil {
 			if s, ok := r.(string); ok && len(s) > 21 && s[:21] == "verif-replay-mismatch" {
-				fmt.Printf("VERIF-REPLAY-MISMATCH: %v\n", r)
+				if len(VerifFailed) > 0 && len(s) > 36 && s[:36] == "verif-replay-mismatch: no value left" && !VerifAssumeFail {
+					// the recorded prefix ends at the failing assertion: it failed natively as well
+					for _, id := range VerifFailed {
+						fmt.Printf("VERIF-ASSERT-FAILED %s\n", id)
+					}
+					fmt.Println("VERIF-REPLAY-PREFIX-DONE")
+				} else {
+					fmt.Printf("VERIF-REPLAY-MISMATCH: %v\n", r)
+				}
 			} else {
 				fmt.Printf("VERIF-PANIC: %v\n", r)
 			}
